@@ -61,7 +61,12 @@ class Harness:
             hdrs.append(("Authorization", "Basic " + base64.b64encode(b"admin:" + unhx(pw)).decode()))
         elif False:
             pass
-        r = rig.get(s.port, "http://127.0.0.1:%d/squid-internal-mgr/%s" % (s.port, action), headers=hdrs, timeout=8)
+        # origin-form request to the proxy port: squid recognises /squid-internal-mgr/ as an internal request
+        c = rig.Client(s.port, timeout=8)
+        head = ["GET /squid-internal-mgr/%s HTTP/1.1" % action, "Host: 127.0.0.1:%d" % s.port] + ["%s: %s" % h for h in hdrs] + ["Connection: close", "", ""]
+        c.send("\r\n".join(head).encode())
+        r = c.response()
+        c.close()
         if not s.alive():
             return "abort:squid-died"
         if r is None:
